@@ -3,5 +3,6 @@ INVARIANT LookupsDefined
 INVARIANT VerdictRight
 INVARIANT WitnessGenuine
 INVARIANT FinalTableIsLALR
+INVARIANT FillOrderIrrelevant
 VIEW TView
 CHECK_DEADLOCK FALSE
